@@ -2,6 +2,8 @@
 
 #include "ccl/rslang/RSExpr.h"
 
+#include <map>
+
 using JSON = nlohmann::ordered_json;
 
 namespace {
@@ -397,10 +399,15 @@ namespace lang {
 void to_json(JSON& object, const LexicalTerm& term) {
   object = term.Text();
   object["forms"] = JSON::array();
+  // Note: manual forms live in a hash table, they are ordered by tags to make the document reproducible
+  std::map<std::string, std::string> orderedForms{};
   for (const auto& [form, text] : term.GetAllManual()) {
+    orderedForms.emplace(form.ToString(), text);
+  }
+  for (const auto& [tags, text] : orderedForms) {
     object["forms"] += JSON{
       {"text", text},
-      {"tags", form.ToString()}
+      {"tags", tags}
     };
   }
 }
